@@ -63,26 +63,76 @@ def check(run):
     # ------------------------------------------------------------------ R2
     fh = ix.func("trimesh.repair:fill_holes")
     sd = ix.func("trimesh.remesh:subdivide")
-    for f, firsts in ((fh, {"new_vertices": ["mesh.vertices"], "mesh.faces": ["mesh._data['faces']", "mesh.faces"]}),
-                      (sd, {"new_vertices": ["vertices"], "new_faces": ["faces[~face_mask]"]})):
-        for tgt, allowed in firsts.items():
-            found = False
-            for st in ast.walk(f.node):
-                if isinstance(st, ast.Assign) and ast.unparse(st.targets[0]) == tgt and isinstance(st.value, ast.Call) \
-                        and ast.unparse(st.value.func).endswith("vstack") and st.value.args and isinstance(st.value.args[0], (ast.Tuple, ast.List)):
-                    found = True
-                    first = ast.unparse(st.value.args[0].elts[0])
-                    ok = first in allowed
-                    run.instance("R2", f"{f.module.rel}:{st.lineno} {f.qualname}", f"`{tgt}` = vstack(({first}, ...)): original first", ok)
-                    if not ok:
-                        run.violation("R2", f"{f.module.rel}:{st.lineno} {f.qualname}",
-                                      f"`{ast.unparse(st)[:80]}` does not put the original {tgt.split('_')[-1].split('.')[-1]} first: indices of existing "
-                                      f"vertices / order of untouched faces change", key=key_of("C18-R2", f.qualname, tgt))
-            if not found:
-                raise AnalysisError(f"anchor vanished: `{tgt} = np.vstack((original, new))` in {f.qualname}")
+    # by role, on canonical forms: what subdivide RETURNS and what fill_holes STORES INTO THE MESH is a row-wise stack whose
+    # first part is the original array (any spelling of the stacking: sa/idioms.py; any local names: sa/provenance.py)
+    import re
+
+    from ..idioms import stack_rows
+    from ..provenance import Prov
+    from ..template import match_expr
+
+    def first_part(text):
+        try:
+            node = ast.parse(text, mode="eval").body
+        except SyntaxError:
+            return None, None
+        parts = stack_rows(node)
+        if parts is None:
+            return text, []
+        return ast.unparse(parts[0]), [ast.unparse(x) for x in parts[1:]]
+
+    psd = Prov(ix, sd, depth=12)
+    n_ret = 0
+    mids = []
+    for r in ast.walk(sd.node):
+        if not (isinstance(r, ast.Return) and isinstance(r.value, ast.Tuple) and len(r.value.elts) >= 2 and psd.stmt_of_return(r) is not None):
+            continue
+        n_ret += 1
+        where = f"{sd.module.rel}:{r.lineno} {sd.qualname}"
+        v1, vrest = first_part(psd.canon(r.value.elts[0], r))
+        f1, frest = first_part(psd.canon(r.value.elts[1], r))
+        ok = v1 == "P_vertices"
+        run.instance("R2", where, f"returned vertices = stack(({v1}, ...)): original first", ok)
+        if not ok:
+            run.violation("R2", where, f"subdivide does not put the original vertices first in what it returns (`{str(v1)[:60]}`): indices of existing "
+                                       f"vertices / order of untouched faces change", key=key_of("C18-R2", sd.qualname, "new_vertices"))
+        ok = f1 is not None and re.fullmatch(r"P_faces\[~\w+\]", f1) is not None
+        run.instance("R2", where, f"returned faces = stack(({f1}, ...)): untouched faces first", ok)
+        if not ok:
+            run.violation("R2", where, f"subdivide does not put the untouched faces first in what it returns (`{str(f1)[:60]}`): indices of existing "
+                                       f"vertices / order of untouched faces change", key=key_of("C18-R2", sd.qualname, "new_faces"))
+        mids.append((vrest, frest))
+    if n_ret == 0:
+        raise AnalysisError("anchor vanished: `return new_vertices, new_faces` in subdivide")
+    pfh = Prov(ix, fh, depth=12)
+    mname = fh.params[0]
+    n_st = 0
+    for st in ast.walk(fh.node):
+        if not (isinstance(st, ast.Assign) and ast.unparse(st.targets[0]) in (f"{mname}.faces", f"{mname}.vertices")):
+            continue
+        n_st += 1
+        attr = ast.unparse(st.targets[0]).split(".")[-1]
+        texts = pfh.alternatives(st.value.id, st) if isinstance(st.value, ast.Name) else {pfh.canon(st.value, st)}
+        firsts = sorted({first_part(t)[0] or "?" for t in (texts or {"?"})})
+        allowed = (f"P_{mname}.{attr}", f"P_{mname}._data['{attr}']")
+        ok = all(x in allowed for x in firsts)
+        where = f"{fh.module.rel}:{st.lineno} {fh.qualname}"
+        run.instance("R2", where, f"`{mname}.{attr}` = stack(({firsts}, ...)): original first", ok)
+        if not ok:
+            run.violation("R2", where, f"`{ast.unparse(st)[:80]}` does not put the original {attr} first: indices of existing "
+                                       f"vertices / order of untouched faces change", key=key_of("C18-R2", fh.qualname, "new_vertices" if attr == "vertices" else "mesh.faces"))
+    if n_st < 2:
+        raise AnalysisError("anchor vanished: the stores into mesh.faces / mesh.vertices of fill_holes")
     # midpoints are appended after len(vertices): mid_idx offset
-    t = ast.unparse(sd.node)
-    ok = "mid_idx = inverse.reshape((-1, 3)) + len(vertices)" in t and "mid = vertices[edges[unique]].mean(axis=1)" in t
+    ok = bool(mids)
+    for vrest, frest in mids:
+        e_ = match_expr("P_vertices[_e_E[trimesh.grouping.unique_rows(_e_E)[0]]].mean(axis=1)", vrest[0]) if len(vrest) == 1 else None
+        off = False
+        if e_ and len(frest) == 1:
+            for n_ in ast.walk(ast.parse(frest[0], mode="eval")):
+                if isinstance(n_, ast.BinOp) and match_expr("trimesh.grouping.unique_rows(_e_E)[1].reshape((-1, 3)) + len(P_vertices)", n_, e_) is not None:
+                    off = True
+        ok = ok and e_ is not None and off
     run.instance("R2", sd.where, "midpoint indices start at len(vertices) and midpoints are means of the unique edges' end points", ok)
     if not ok:
         run.violation("R2", sd.where, "subdivide: midpoint index offset or midpoint position changed", key=key_of("C18-R2", "midpoints"))
@@ -151,26 +201,76 @@ def check(run):
 
     # ------------------------------------------------------------------ R5
     fi = ix.func("trimesh.repair:fix_inversion")
-    early = []
-    for st in fi.node.body:
-        if isinstance(st, ast.If) and any(isinstance(x, ast.Return) for x in st.body) and not st.orelse:
-            early.append(ast.unparse(st.test))
-    ok = early == ["not mesh.is_watertight"]
-    run.instance("R5", fi.where, f"early exits before the per-body repair: {early}", ok)
+    from ..pathsum import summaries
+    from ..provenance import Prov
+    from ..template import match_expr
+    pfi = Prov(ix, fi, depth=10)
+    mp_, mb_ = fi.params[0], fi.params[1]
+
+    def cfi(e, origin=None):
+        st_ = pfi.stmt_of(origin if origin is not None else e)
+        return pfi.canon(e, st_) if st_ is not None else ast.unparse(e)
+
+    GROUPS = f"trimesh.graph.connected_components(P_{mp_}.face_adjacency)"
+    body_loops = [n for n in ast.walk(fi.node) if isinstance(n, ast.For) and cfi(n.iter) == GROUPS]
+    VOLNEG = (f"P_{mp_}.volume < 0.0", f"P_{mp_}.volume < 0")
+
+    def _inverts(st):
+        return isinstance(st, ast.Expr) and isinstance(st.value, ast.Call) and ast.unparse(st.value.func) == f"{mp_}.invert"
+
+    # ---- every way out of fix_inversion: not watertight / whole-mesh repair (single body) / after the per-body loop
+    shortcuts, whole_bad = [], []
+    n_paths = 0
+    for ps in summaries(fi.node, canon=cfi):
+        if ps.exit == "raise":
+            continue
+        n_paths += 1
+        if ps.holds(f"P_{mp_}.is_watertight") is False:
+            continue
+        looped = any(st in body_loops for st in ps.stmts)
+        if looped:
+            continue
+        single = ps.holds(f"P_{mb_}") is False or ps.holds(f"len({GROUPS}) == 1") is True or ps.holds(f"1 == len({GROUPS})") is True \
+            or ps.holds(f"len({GROUPS}) > 1") is False or ps.holds(f"len({GROUPS}) < 2") is True
+        if not single:
+            shortcuts.append(sorted(("" if p_ else "not ") + t for t, p_ in ps.conds))
+            continue
+        neg = [ps.holds(t) for t in VOLNEG if ps.holds(t) is not None]
+        if not neg or (neg[0] and not ps.has_stmt(_inverts)) or (not neg[0] and ps.has_stmt(_inverts)):
+            whole_bad.append(sorted(("" if p_ else "not ") + t for t, p_ in ps.conds))
+    ok = not shortcuts and bool(body_loops) and n_paths >= 4
+    run.instance("R5", fi.where, f"{n_paths} ways out: not watertight, whole-mesh repair of a single body, or after the per-body loop", ok)
     if not ok:
-        run.violation("R5", fi.where, f"fix_inversion returns early on {early}: a whole-mesh shortcut skips the body-by-body repair for meshes it still has "
+        run.violation("R5", fi.where, f"fix_inversion returns early on {shortcuts[:2] or 'no per-body loop over the connected components'}: a whole-mesh shortcut skips the body-by-body repair for meshes it still has "
                                       f"to fix (e.g. a small inverted body inside a large correct one)", key=key_of("C18-R5", "early-exit"))
-    t = ast.unparse(fi.node)
-    ok = ("for faces in groups:" in t and "triangles.mass_properties(tri[faces], crosses=cross[faces], skip_inertia=True)['volume']" in t
-          and "if volume < 0.0:" in t and "flip[faces] = True" in t and "mesh.faces[flip] = np.fliplr(mesh.faces[flip])" in t
-          and "groups = graph.connected_components(mesh.face_adjacency)" in t)
-    run.instance("R5", fi.where, "per body: signed volume of the body's own triangles; negative bodies are flipped column-wise", ok)
+    ok = not whole_bad
+    run.instance("R5", fi.where, "single body: inverted exactly when the signed volume is negative", ok)
+    if not ok:
+        run.violation("R5", fi.where, f"fix_inversion single-body branch changed ({whole_bad[:1]})", key=key_of("C18-R5", "single"))
+    # ---- per body: the flag is raised under `signed volume of the body's own triangles < 0`, and the raised rows are reversed
+    ok = False
+    detail = "no per-body loop"
+    for lp in body_loops:
+        tv = lp.target.id if isinstance(lp.target, ast.Name) else None
+        marks = [st for st in ast.walk(lp) if isinstance(st, ast.Assign) and isinstance(st.targets[0], ast.Subscript) and isinstance(st.targets[0].value, ast.Name)
+                 and ast.unparse(st.targets[0].slice) == tv and ast.unparse(st.value) == "True"]
+        if len(marks) != 1:
+            detail = f"{len(marks)} flag stores in the loop"
+            continue
+        g = pfi.guards(marks[0])
+        VOL = (f"trimesh.triangles.mass_properties(P_{mp_}.triangles[EACH({GROUPS})], crosses=P_{mp_}.triangles_cross[EACH({GROUPS})], skip_inertia=True)['volume']",
+               f"trimesh.triangles.mass_properties(P_{mp_}.triangles[EACH({GROUPS})], crosses=P_{mp_}.triangles_cross[EACH({GROUPS})], skip_inertia=True).volume",
+               f"trimesh.triangles.mass_properties(P_{mp_}.triangles[EACH({GROUPS})], skip_inertia=True)['volume']",
+               f"trimesh.triangles.mass_properties(P_{mp_}.triangles[EACH({GROUPS})])['volume']")
+        gok = bool(g) and any(match_expr(f"{v_} < 0.0", g[-1]) is not None for v_ in VOL)
+        mask = marks[0].targets[0].value.id
+        flips = [st for st in ast.walk(fi.node) if isinstance(st, ast.Assign) and ast.unparse(st.targets[0]) == f"{mp_}.faces[{mask}]"
+                 and ast.unparse(st.value) in (f"np.fliplr({mp_}.faces[{mask}])", f"{mp_}.faces[{mask}][:, ::-1]", f"numpy.fliplr({mp_}.faces[{mask}])")]
+        ok = gok and len(flips) == 1
+        detail = f"flag raised under `{(g[-1] if g else '')[:70]}`; rows of the flag reversed column-wise: {len(flips) == 1}"
+    run.instance("R5", fi.where, f"per body: signed volume of the body's own triangles; negative bodies are flipped column-wise ({detail})", ok)
     if not ok:
         run.violation("R5", fi.where, "fix_inversion's per-body volume test or flip changed", key=key_of("C18-R5", "per-body"))
-    ok = "if mesh.volume < 0.0:" in t and "mesh.invert()" in t
-    run.instance("R5", fi.where, "single body: inverted when the signed volume is negative", ok)
-    if not ok:
-        run.violation("R5", fi.where, "fix_inversion single-body branch changed", key=key_of("C18-R5", "single"))
     fn = ix.func("trimesh.repair:fix_normals")
     t = ast.unparse(fn.node)
     ok = t.index("fix_winding(mesh)") < t.index("fix_inversion(mesh, multibody=multibody)") if ("fix_winding(mesh)" in t and "fix_inversion(mesh, multibody=multibody)" in t) else False
@@ -190,8 +290,9 @@ def check(run):
     if not ok:
         run.violation("R5", inv.where, "Trimesh.invert no longer reverses the winding of every face", key=key_of("C18-R5", "invert"))
     fw = ix.func("trimesh.repair:fix_winding")
-    t = ast.unparse(fw.node)
-    ok = "faces[face_pair[1]] = faces[face_pair[1]][::-1]" in t and "if edge_pair[0][0] == edge_pair[1][0]:" in t and "mesh.faces = faces" in t
+    from ..windingrule import fix_winding_facts
+    wf = fix_winding_facts(ix)
+    ok = wf["n_flips"] == 1 and wf["guard_ok"] and wf["target_ok"] and wf["stored"]
     run.instance("R5", fw.where, "fix_winding reverses a face whose shared edge runs the same way as its neighbour's, and stores the faces", ok)
     if not ok:
         run.violation("R5", fw.where, "fix_winding's reversal test or store changed", key=key_of("C18-R5", "fix_winding"))
